@@ -315,7 +315,7 @@ def add(x, y, out=None, out_like=None, sizing='optimal', method='raw', **kwargs)
     """
     """
     def _add_raw(x, y, n_frac):
-        precision_cast = (lambda m: np.array(m, dtype=object)) if n_frac >= _n_word_max else (lambda m: m)
+        precision_cast = (lambda m: np.array(m, dtype=object)) if max(n_frac, x.n_word, y.n_word) >= _n_word_max else (lambda m: m)
         return x.val * precision_cast(2**(n_frac - x.n_frac)) + y.val * precision_cast(2**(n_frac - y.n_frac))
 
     if not isinstance(x, Fxp):
@@ -336,7 +336,7 @@ def sub(x, y, out=None, out_like=None, sizing='optimal', method='raw', **kwargs)
     """
     """
     def _sub_raw(x, y, n_frac):
-        precision_cast = (lambda m: np.array(m, dtype=object)) if n_frac >= _n_word_max else (lambda m: m)
+        precision_cast = (lambda m: np.array(m, dtype=object)) if max(n_frac, x.n_word, y.n_word) >= _n_word_max else (lambda m: m)
         return x.val * precision_cast(2**(n_frac - x.n_frac)) - y.val * precision_cast(2**(n_frac - y.n_frac))
 
     if not isinstance(x, Fxp):
